@@ -3312,8 +3312,10 @@ class Parameters:
                 # dealing with object and it's been set on this object
                 value = cls_or_slf._param__private.values[name]
             else:
-                # dealing with class or isn't set on the object
-                value = param_obj.default
+                # dealing with class or isn't set on the object: what the
+                # attribute shows is the default of the class Parameter,
+                # an instance Parameter may hold an outdated copy of it
+                value = self_._cls_parameters[name].default
 
         return value
 
